@@ -111,27 +111,28 @@ def rule_precomp_msm(fx, rep):
         p = fx.impl_method('CurveAffine', aff, 'sum_of_products_precomp_256')
         if not (p and fx.body(p)):
             continue
-        for (n1, n2) in ((0, 0), (1, 1), (2, 2), (3, 3), (2, 3), (3, 1)):
+        # (points, scalars, table blocks): the table may cover more bases than the call uses (a prefix of a fixed base set)
+        for (n1, n2, nt) in ((0, 0, 1), (1, 1, 1), (2, 2, 2), (3, 3, 3), (2, 3, 2), (3, 1, 3), (1, 3, 3), (0, 2, 2), (2, 3, 4)):
             n = min(n1, n2)
             pts = Agg([Lin.atom('P%d' % j) for j in range(n1)])
             scal = []
             for j in range(n2):
                 scal.append(Agg([BV([BitVal(256 * j + 64 * w + i) for i in range(64)]) for w in range(4)]))
             table = []
-            for j in range(max(n1, 1)):
+            for j in range(nt):
                 table.extend(bitlin.table256('P%d' % j).items)
             try:
                 I, res = bitlin.run(fx, p, [('byref', pts), ('byref', Agg(scal)), ('byref', Agg(table))])
                 rep.sites(I.call_sites)
             except (exp.NotDerivable, exp.Budget) as e:
-                rep.fail('BITLIN', '%s:sum_of_products_precomp_256:n=(%d,%d)' % (g, n1, n2), 'not derivable: %s at %s' % (e, getattr(e, 'where', None)), fx.fn(p)['span'])
+                rep.fail('BITLIN', '%s:sum_of_products_precomp_256:n=(%d,%d,%d)' % (g, n1, n2, nt), 'not derivable: %s at %s' % (e, getattr(e, 'where', None)), fx.fn(p)['span'])
                 continue
             want = Lin()
             for j in range(n):
                 want = want.add(Lin({'P%d*b%d' % (j, 256 * j + k): 1 << k for k in range(256)}))
             got = res[0][1] if len(res) == 1 else None
-            rep.check(isinstance(got, Lin) and got == want, 'BITLIN', '%s:sum_of_products_precomp_256:n=(%d,%d)' % (g, n1, n2),
-                      'for %d points / %d scalars and all scalar values: sum over the first min entries of sum_k 2^k b_k P_j' % (n1, n2),
+            rep.check(isinstance(got, Lin) and got == want, 'BITLIN', '%s:sum_of_products_precomp_256:n=(%d,%d,%d)' % (g, n1, n2, nt),
+                      'for %d points / %d scalars / tables of %d bases and all scalar values: sum over the first min(#points, #scalars) entries of sum_k 2^k b_k P_j' % (n1, n2, nt),
                       'result differs from sum [k_j]P_j: %r' % (bitlin.describe(got, want) if isinstance(got, Lin) else got,), fx.fn(p)['span'], construct=p)
 
 
